@@ -287,30 +287,61 @@ Keys == [i \in 1..Len(ions) |-> FormulasOf(ions[i].z)[Rank(i)]]
 (* are read from the keys of the mapping), a string of keys, or a mapping key -> Substance; the   *)
 (* registry may list the species in ANY order and may contain further species - charges are      *)
 (* looked up BY KEY, so none of this may change the result.                                       *)
+(* The registry is described symbolically so that the form table does not depend on the ion     *)
+(* list (it is exported once): order = "rev" (reversed keys) | "rot" (first key moved to the end), *)
+(* front / back = a further species listed before / after them ("" = none).                       *)
 Rev(q) == [i \in 1..Len(q) |-> q[Len(q) + 1 - i]]
 Rot(q) == IF Len(q) <= 1 THEN q ELSE Tail(q) \o <<Head(q)>>
-NoSubs == [kind |-> "none", keys |-> <<>>]
-Subs(kind, keys) == [kind |-> kind, keys |-> keys]
+NoSubs == [kind |-> "none", order |-> "same", front |-> "", back |-> ""]
+Subs(kind, order, front, back) == [kind |-> kind, order |-> order, front |-> front, back |-> back]
+Registry(sb, keys) == (IF sb.front = "" THEN <<>> ELSE <<sb.front>>)
+                      \o (CASE sb.order = "rev" -> Rev(keys) [] sb.order = "rot" -> Rot(keys) [] OTHER -> keys)
+                      \o (IF sb.back = "" THEN <<>> ELSE <<sb.back>>)
+(* further options of the call (coverage audit): warn = the `warn` keyword ("default" = not      *)
+(* passed, "off" = warn=False: never a warning); ukw = the (documented, unused) `units` keyword is *)
+(* passed; factory = the species keys are opaque names and the charges come from a user-supplied  *)
+(* `substance_factory` (the keys of the form are then FKeys, the factory maps FKeys[i] to a       *)
+(* substance of charge ions[i].z)                                                                 *)
+NoOpts == [warn |-> "default", ukw |-> FALSE, factory |-> FALSE]
 F(form, unit, e, unit2, e2, subs) ==
-    [form |-> form, unit |-> unit, exp10 |-> e, unit2 |-> unit2, exp10b |-> e2, subs |-> subs]
+    [form |-> form, unit |-> unit, exp10 |-> e, unit2 |-> unit2, exp10b |-> e2, subs |-> subs, opts |-> NoOpts]
+FO(f, w, ukw, fac) == [f EXCEPT !.opts = [warn |-> w, ukw |-> ukw, factory |-> fac]]
+FKeys == [i \in 1..Len(ions) |-> "X" \o ToString(i)]
 ListForms == << F("list",   "none",    -12, "none",   -12, NoSubs),
                 F("qarray", "mol/kg",  -12, "mol/kg", -12, NoSubs),
                 F("qarray", "mmol/kg", -9,  "mmol/kg", -9, NoSubs),
                 F("qlist",  "mol/g",   -15, "mol/g",  -15, NoSubs),
-                F("qmixed", "mmol/kg", -9,  "mol/kg", -12, NoSubs) >>     \* odd entries unit, even entries unit2
+                F("qmixed", "mmol/kg", -9,  "mol/kg", -12, NoSubs),       \* odd entries unit, even entries unit2
+                F("nparray", "none",   -12, "none",   -12, NoSubs),       \* plain numpy arrays
+                FO(F("list", "none",   -12, "none",   -12, NoSubs), "off", FALSE, FALSE),
+                FO(F("qarray", "mol/kg", -12, "mol/kg", -12, NoSubs), "default", TRUE, FALSE),
+                FO(F("qlist", "mmol/kg", -9, "mmol/kg", -9, NoSubs), "off", TRUE, FALSE) >>
 DictForms == << F("dict",   "none",    -12, "none",   -12, NoSubs),
-                F("dict",   "none",    -12, "none",   -12, Subs("str", Rev(Keys))),
-                F("dict",   "none",    -12, "none",   -12, Subs("dict", Rot(Keys) \o <<"He">>)),
+                F("dict",   "none",    -12, "none",   -12, Subs("str", "rev", "", "")),
+                F("dict",   "none",    -12, "none",   -12, Subs("dict", "rot", "", "He")),
                 F("qdict",  "mol/kg",  -12, "mol/kg", -12, NoSubs),
-                F("qdict",  "umol/kg", -6,  "mmol/kg", -9, Subs("dict", Rev(Keys))),
-                F("qdict",  "mol/kg",  -12, "mol/kg", -12, Subs("str", <<"Ar">> \o Rot(Keys))) >>
+                F("qdict",  "umol/kg", -6,  "mmol/kg", -9, Subs("dict", "rev", "", "")),
+                F("qdict",  "mol/kg",  -12, "mol/kg", -12, Subs("str", "rot", "Ar", "")),
+                FO(F("dict", "none",   -12, "none",   -12, NoSubs), "off", FALSE, FALSE) >>
+(* mapping forms whose keys are opaque: they work for every ion list (no formula table needed) *)
+FactoryForms == << FO(F("dict",  "none",    -12, "none",   -12, NoSubs), "default", FALSE, TRUE),
+                   FO(F("qdict", "mmol/kg", -9,  "mol/kg", -12, Subs("str", "rev", "", "")), "default", FALSE, TRUE) >>
 (* the charge a key denotes (the table above read backwards) *)
 ZOfKey(k) == CHOOSE z \in -4..4 : \E i \in 1..4 : FormulasOf(z)[i] = k
 KeysDenoteCharges ==
     (dh = NoDH /\ KeysOK) =>
         /\ \A i \in 1..Len(ions) : ZOfKey(Keys[i]) = ions[i].z
         /\ \A i, j \in 1..Len(ions) : i # j => Keys[i] # Keys[j]
-FormsFor == IF KeysOK THEN ListForms \o DictForms ELSE ListForms
+(* the form table (exported once, from the initial state); a case says how many of its entries  *)
+(* apply: the formula-keyed mapping forms need the 4-entry formula table per charge (KeysOK)       *)
+FormTable == ListForms \o FactoryForms \o DictForms
+NForms == IF KeysOK THEN Len(FormTable) ELSE Len(ListForms) + Len(FactoryForms)
+(* whatever the registry order, it contains every key of the mapping exactly once *)
+RegistriesComplete ==
+    (dh = NoDH /\ KeysOK /\ ions # <<>>) =>
+        \A i \in 1..Len(FormTable) :
+            LET r == Registry(FormTable[i].subs, Keys) IN
+            \A k \in 1..Len(Keys) : Cardinality({ n \in 1..Len(r) : r[n] = Keys[k] }) = 1
 
 IonClass == IF TwiceI(ions) = <<>> THEN "zero"
             ELSE "I-" \o (CASE WarnSpec(ions) = "no" -> "neutral" [] WarnSpec(ions) = "yes" -> "charged"
@@ -321,10 +352,10 @@ IonRtolExp == -12
 IonCase ==
     [ in  |-> [kind |-> "ions",
                ions |-> [i \in 1..Len(ions) |-> [b |-> ions[i].b, z |-> ions[i].z]],
-               keys |-> IF KeysOK THEN Keys ELSE <<>>,
-               forms |-> FormsFor,
+               keys |-> IF KeysOK THEN Keys ELSE <<>>, fkeys |-> FKeys,
+               nforms |-> NForms,
                hist |-> hist],
-      exp |-> [twiceI_pico |-> TwiceI(ions), warn |-> WarnSpec(ions), rtol_exp10 |-> IonRtolExp,
+      exp |-> [twiceI_pico |-> TwiceI(ions), warn |-> WarnSpec(ions), warn_off |-> "no", rtol_exp10 |-> IonRtolExp,
                net_sign |-> NetSign(ions)],
       cls |-> IonClass ]
 
@@ -345,7 +376,11 @@ LawModes ==
        LM("scaled", "default", FALSE, "mmol/kg", 1000, "mol/kg", "angstrom", 10, "1/nm"),
        LM("plain",  "default", TRUE,  "none", 1, "none", "none", 1, "none"),
        LM("units",  "default", TRUE,  "mol/kg", 1, "mol/kg", "nm", 1, "1/nm"),
-       LM("scaled", "default", TRUE,  "mmol/kg", 1000, "mol/kg", "angstrom", 10, "1/nm") >>
+       LM("scaled", "default", TRUE,  "mmol/kg", 1000, "mol/kg", "angstrom", 10, "1/nm"),
+       \* coverage audit: symbolic backend (given by name), array-valued ionic strength
+       LM("plain",  "sympy",   FALSE, "none", 1, "none", "none", 1, "none"),
+       LM("nparray", "default", FALSE, "none", 1, "none", "none", 1, "none"),
+       LM("nparray", "default", FALSE, "mmol/kg", 1000, "mol/kg", "angstrom", 10, "1/nm") >>
 (* A, B take `constants` and `units`: every accepted combination (constants object given / not) x  *)
 (* (units object given / not) x (inputs plain / default units / scaled units); without any of the  *)
 (* two objects the inputs are plain numbers, with either of them they are quantities              *)
@@ -365,10 +400,18 @@ ABModes ==
        ABM("units",  FALSE, TRUE,  TRUE,  "K", 1, 1, "kg/m3", 1, 1, "mol/kg"),
        ABM("scaled", FALSE, TRUE,  TRUE,  "mK", 1000, 1, "g/cm3", 1, 1000, "mol/kg"),
        ABM("units",  TRUE,  TRUE,  TRUE,  "K", 1, 1, "kg/m3", 1, 1, "mol/kg"),
-       ABM("scaled", TRUE,  TRUE,  TRUE,  "mK", 1000, 1, "g/cm3", 1, 1000, "mol/kg") >>
+       ABM("scaled", TRUE,  TRUE,  TRUE,  "mK", 1000, 1, "g/cm3", 1, 1000, "mol/kg"),
+       \* coverage audit: the `backend` keyword, array-valued temperature and density
+       [ABM("plain", FALSE, FALSE, TRUE, "none", 1, 1, "none", 1, 1, "none") EXCEPT !.backend = "math"],
+       [ABM("units", TRUE,  TRUE,  FALSE, "K", 1, 1, "kg/m3", 1, 1, "mol/kg") EXCEPT !.backend = "math"],
+       ABM("nparray", FALSE, FALSE, TRUE, "none", 1, 1, "none", 1, 1, "none"),
+       ABM("nparray", TRUE,  TRUE,  FALSE, "K", 1, 1, "g/cm3", 1, 1000, "mol/kg") >>
 PM(mode, be, impl) == [mode |-> mode, backend |-> be, implicit |-> impl]
 ProdModes == << PM("plain", "default", FALSE), PM("plain", "math", FALSE), PM("class", "default", FALSE),
-                PM("plain", "default", TRUE), PM("class", "default", TRUE) >>
+                PM("plain", "default", TRUE), PM("class", "default", TRUE),
+                \* coverage audit: symbolic backend; one instance of the class called twice (first with
+                \* four times the molalities) - the second answer must not remember the first
+                PM("plain", "sympy", FALSE), PM("classreuse", "default", FALSE) >>
 (* documented defaults and the arguments a configuration leaves out *)
 DefaultC(kind) == IF kind \in {"dav", "dap"} THEN <<-3, 10>> ELSE QZero
 If(c, name) == IF c THEN <<name>> ELSE <<>>
@@ -392,6 +435,7 @@ DHCase ==
                modes |-> ModesOfKind(dh.kind),
                omits |-> [i \in 1..Len(ModesOfKind(dh.kind)) |-> OmitSeq(dh, ModesOfKind(dh.kind)[i])],
                conc |-> IF dh.kind \in ProdKinds THEN ProdConc(dh) ELSE <<>>,
+               conc_before |-> IF dh.kind \in ProdKinds THEN [i \in 1..Len(ProdConc(dh)) |-> QMul(Q(4), ProdConc(dh)[i])] ELSE <<>>,
                size_exp10 |-> -12],
       exp |-> [st |-> v.st, q |-> v.q,
                term |-> IF v.st = "q" THEN TC(0) ELSE TInst(PointTerm(dh), PointEnv(dh)),
@@ -402,4 +446,6 @@ DHCase ==
 
 CaseRec == IF dh = NoDH THEN IonCase ELSE DHCase
 Emit == Done => PrintT(<<"CASE", ToJson(CaseRec)>>)
+TableCase == [ in |-> [kind |-> "formtable", forms |-> FormTable], exp |-> [n |-> Len(FormTable)], cls |-> "table" ]
+EmitTable == (stage = "build" /\ ions = <<>> /\ dh = NoDH) => PrintT(<<"CASE", ToJson(TableCase)>>)
 =============================================================================
